@@ -178,6 +178,7 @@ type Engine struct {
 	budget  int
 	failed  bool
 	initRefused bool
+	connClosed  bool
 	start   time.Time
 	curOp   int
 }
@@ -202,6 +203,9 @@ func (e *Engine) fail(outcome, detail string) {
 }
 
 func (e *Engine) sendRaw(method string, params interface{}, isReq bool, opIdx int) *Answer {
+	if e.connClosed {
+		return nil // nothing can be sent on a closed connection
+	}
 	e.drain()
 	inflight := 1
 	for _, a := range e.res.Answers {
@@ -315,7 +319,7 @@ func (e *Engine) Settle() {
 		return
 	}
 	for _, a := range e.res.Answers {
-		if !a.Done {
+		if !a.Done && !e.connClosed {
 			e.fail(OutStuck, fmt.Sprintf("request op#%d %s unanswered at quiescence with nothing runnable", a.Op, a.Method))
 			return
 		}
@@ -616,6 +620,7 @@ func (e *Engine) exec(i int, op *Op) {
 			cs[len(cs)-1].FailWrites(n)
 		}
 	case "closeconn":
+		e.connClosed = true
 		e.ch.Close()
 		synctest.Wait()
 		// handlers still in flight now see a closed connection; let them run to the end
